@@ -123,7 +123,7 @@ theorem C17{sfx}_every_class_has_true_vector :
 F1 = "C17|response-vectors|result-and-error-together"
 
 
-def generator_model(ctx, sfx, model_path, what, problems):
+def generator_model(ctx, sfx, model_path, what, problems, theorems=True):
     """Tie the Lean model of the generation algorithm to generate() of the current tree for one metamodel, and instantiate the
     label-soundness theorems for it."""
     import subprocess
@@ -132,12 +132,13 @@ def generator_model(ctx, sfx, model_path, what, problems):
         raise Broken(f"x_meta failed ({what}): " + err)
     thms = [f"C17{sfx}_request_labels_sound", f"C17{sfx}_notification_labels_sound", f"C17{sfx}_result_labels_sound",
             f"C17{sfx}_response_labels_sound_partial", f"C17{sfx}_every_class_has_true_vector"]
-    common.write_module(ctx.work, "InstG" + sfx, GEN_INST.replace("{sfx}", sfx))
     main = common.write_module(ctx.work, "MainT" + sfx, GEN_MAIN.replace("{sfx}", sfx))
-    res = common.lean_compile(ctx.work, [["InstG" + sfx]])
-    failed = ctx.add_lean_results(res, theorems_expected={"InstG" + sfx: thms})
-    for r in failed:
-        problems.append(f"{r.name} ({what}): {r.out[-800:]}")
+    if theorems:
+        common.write_module(ctx.work, "InstG" + sfx, GEN_INST.replace("{sfx}", sfx))
+        res = common.lean_compile(ctx.work, [["InstG" + sfx]])
+        failed = ctx.add_lean_results(res, theorems_expected={"InstG" + sfx: thms})
+        for r in failed:
+            problems.append(f"{r.name} ({what}): {r.out[-800:]}")
     outf = ctx.work / f"testgen{sfx}.out"
     with open(outf, "w", encoding="utf-8") as fh:
         p = subprocess.run(["lean", "--run", str(main)], stdout=fh, stderr=subprocess.PIPE, text=True, env=common.lean_env(ctx.work), cwd=str(ctx.work), timeout=3600)
@@ -213,6 +214,15 @@ def run(ctx):
         mf = d / "model.json"
         mf.write_text(json.dumps(edoc))
         generator_model(ctx, "E", mf, "the composite evolved metamodel", problems)
+        # a synthetic metamodel reaching the branches neither of the two reaches in a generated position (`and`, integer-keyed maps, diamond
+        # inheritance with a re-declared property, the `visited` cut-off, ...): correspondence only — it is outside `modelOK` (`and`)
+        import corner_model
+        mfc = d / "corner.json"
+        mfc.write_text(json.dumps(corner_model.doc()))
+        sv = common.run_py(common.VERIF / "tools/search/schema_ok.py", [str(mfc)], check=False)
+        if sv.stdout.strip() != "ok":
+            raise Broken("the corner metamodel is not schema-valid (tools/corner_model.py): " + sv.stdout[:300] + sv.stderr[-300:])
+        generator_model(ctx, "C", mfc, "the corner metamodel", problems, theorems=False)
         if ctx.thorough():
             # thorough tier: model == generate() and the theorem instances for further evolved metamodels (seeded edit sequences, VERIF_SEED)
             import random
